@@ -436,3 +436,54 @@ def prog():
         d["S.else_guard_determined"] = Implies(hyp, c.eva(g3) == c.v(g3) % c.p)
         d["canary.S.else_guard_determined"] = Implies(hyp, c.eva(g3) == (1 - c.v(g3)) % c.p)
         return d
+
+
+@register
+class SchemaForBreakGuards(_Schema):
+    """for i in _range(3) over a PUBLIC bound with a secret _breakif in every iteration (assertion-only body): once a
+    break has fired, the rest of that iteration AND every later iteration run under a dead guard -- the guard at the
+    top of iteration i is the product of (1 - b_j) over the earlier iterations, whatever kind the loop's own
+    continuation condition is (here the plain `i != stop`)."""
+    name = "pysnark.branching:_range#for_break_guards"
+    vprops = ("C09", "C07", "C08")
+    fprops = ("C09", "C08", "C07")
+
+    def configs(self, tier):
+        return [dict(cond="secret_lc", bits=3)]
+
+    def setup(self, c, cfg):
+        apply_mode(c, "plain", bitlength=cfg["bits"])
+        br = self.br(c)
+        rt = c.rt
+        bs = tuple(_cond(c, cfg["cond"], "b%d" % i) for i in range(3))
+        self._ops = bs
+        self._seen = []
+
+        def probe(tag, i):
+            self._seen.append((tag, i, rt.guard, rt.ignore_errors()))
+        return c.client("""
+def prog():
+    _ = BranchingValues()
+    for i in _range(3):
+        probe("top", i)
+        _breakif(bs[i])
+        probe("after", i)
+    _endfor()
+    return _
+""", bs=bs, probe=probe, **API(br)), (), {}
+
+    def pre(self, c):
+        return [(1 << (c.bitlength + 1)) < c.p]
+
+    def post(self, c, r, *a_):
+        bs = self._ops
+        d = {"V.all_iterations_ran": [(t, i) for t, i, g, ie_ in self._seen] == [(t, i) for i in range(3) for t in ("top", "after")],
+             "F.stack_empty": len(r.stack) == 0, "F.guard_state_restored": self.state_clean(c)}
+        if not d["V.all_iterations_ran"]:
+            return d
+        gv = lambda g: term(1) if g is None else c.v(g)
+        for t, i, g, ie_ in self._seen:
+            alive = And(*[c.v(bs[j]) == 0 for j in range(i + (1 if t == "after" else 0))])
+            d["V.guard[%s %d]" % (t, i)] = Eq(gv(g), If(alive, 1, 0))
+            d["V.errors_off_iff_dead[%s %d]" % (t, i)] = formula(ie_) == Not(alive)
+        return d
